@@ -203,17 +203,24 @@ def check_case(ctx, n, case, T, hams, ham_ops, ham_rows, stats):
 def device_traces(cases_by_n, rng, tier):
     """Execute qp.classical_shadow / qp.shadow_expval on simulator devices for a sample of the generated circuits."""
     recs, metas = [], []
-    per_n = {1: 6, 2: 14, 3: 8} if tier == "quick" else {1: 20, 2: 60, 3: 40}
+    per_n = {1: 8, 2: 32, 3: 12} if tier == "quick" else {1: 20, 2: 120, 3: 60}
     for n, cases in sorted(cases_by_n.items()):
         pool = [c for c in cases if len(c["circ"]) >= 1]
-        for case in rng.sample(pool, min(per_n[n], len(pool))):
+        # half of the multi-qubit traces use entangled states (a CNOT after a Hadamard): outcomes on different wires are correlated,
+        # so a wrong post-measurement state in the sampler produces rows of probability zero
+        ent = [c for c in pool if any(g["g"] == "CNOT" for g in c["circ"]) and c["circ"][0]["g"] == "Hadamard"
+               and any(abs(abs(sc(x)) - 1) < 1e-12 for x in c["ev"][1:]) and dyadic(c["q"]) is not None]
+        chosen = rng.sample(pool, min(per_n[n], len(pool)))
+        if n >= 2 and ent:
+            chosen = chosen[:len(chosen) // 2] + rng.sample(ent, min(len(chosen) - len(chosen) // 2, len(ent)))
+        for ci_, case in enumerate(chosen):
             labels = rng.choice([list(range(n)), list(range(n)), ["a", "b", "c"][:n], rng.sample(range(6), n), list(range(n, 0, -1))])
-            k = rng.randint(1, n)
+            k = n if (n >= 2 and ci_ >= len(chosen) // 2) else rng.randint(1, n)
             ws = rng.sample(range(1, n + 1), k)              # measured register positions, column order
             mw = [labels[i - 1] for i in ws]
             shots = rng.choice([25, 40])
             dseed, mseed = rng.randrange(1, 10 ** 6), rng.randrange(1, 10 ** 6)
-            devname = rng.choice(["default.qubit", "default.qubit", "default.mixed"])
+            devname = rng.choice(["default.qubit", "default.mixed"])
             ops = [decode_gate(g, M, labels) for g in case["circ"]]
             # words on the measured columns: the first has full support (fixes the measurement's wire order); prefer words that
             # stabilise the state up to sign (exact expectation +-1 in TLC's table): their per-snapshot estimates have a fixed sign
@@ -417,3 +424,12 @@ def run(tier, seed):
         "and these states span the operator space for n <= 2 at the quick bounds",
         "float comparison at 1e-8 against exact ring values; entropy() is not part of the statement and is not checked",
         "device side: form and exact possibility of every sampled row are decided by TLC; sampling frequencies are not tested here (C29)"])
+
+
+def replay(path, tier, seed):
+    """Re-run the (deterministic) check for the recorded tier/seed and keep the violations with the recorded key."""
+    from pathlib import Path
+    rec_ = json.loads(Path(path).read_text())
+    res = run(tier, seed)
+    res.violations = [v for v in res.violations if v.key == rec_.get("key")]
+    return res
